@@ -58,7 +58,8 @@ OBJECTS = {
                {"adaptiveSigmaStride": "4", "gaussianSigmaMin": "0.01"}),
  "module": ("colvarsTrajFrequency %(colvarsTrajFrequency)s\ncolvarsRestartFrequency %(colvarsRestartFrequency)s\n", {"colvarsTrajFrequency": "2", "colvarsRestartFrequency": "4"}),
 }
-VALUES = ["0", "-1", "1", "2147483648", "4294967296", "1e308", "nan", "inf", "-inf", "1e-300", "", "-2147483649", "0.5"]
+VALUES = ["0", "-1", "1", "2147483648", "4294967296", "1e308", "nan", "inf", "-inf", "1e-300", "", "-2147483649", "0.5",
+          "2305843009213693952", "9223372036854775808", "18446744073709551615"]      # 2^61 (times 8 wraps to 0), 2^63, 2^64 - 1
 
 
 def make_case(obj, key, val, seed_steps):
@@ -282,7 +283,7 @@ def extra(rep, tier, rng):
                 jobs.append((obj, key, val))
     if tier == "quick":
         # every (object, keyword) with the three most dangerous values, plus a seeded sample of the rest
-        core = [j for j in jobs if j[2] in ("0", "-1", "2147483648", "nan", "1e308")]
+        core = [j for j in jobs if j[2] in ("0", "-1", "2147483648", "nan", "1e308", "2305843009213693952")]
         rest = [j for j in jobs if j not in core]
         rng.shuffle(rest)
         jobs = core + rest[:150]
@@ -318,7 +319,7 @@ def extra(rep, tier, rng):
             what = "hang (20 s watchdog)" if rc == "timeout" else ("terminated by signal %d" % -rc if isinstance(rc, int) and rc < 0 else "exit status %s" % rc)
             sig = "%s.%s=%s" % (obj, key, val)
             if obj == "colvar" and key in ("corrFuncLength", "corrFuncStride", "corrFuncOffset", "runAveLength", "runAveStride") and (
-                    val.startswith("-") or val in ("2147483648", "4294967296", "1e308", "inf")):
+                    val.startswith("-") or val in ("2147483648", "4294967296", "1e308", "inf", "2305843009213693952", "9223372036854775808", "18446744073709551615")):
                 sig = "analysis window sizes (size_t) accept huge or negative values"
             rep.violation("%s: %s %s %s -> the host process: %s %s" % (what, obj, key, val or "(empty)", what, err.strip().splitlines()[-1:] if err else ""),
                           open(f).read(), "fatal_%s_%s_%s" % (obj, key, (val or "empty").replace("-", "m").replace(".", "p")), found_input=True, signature=sig)
